@@ -204,6 +204,46 @@ claim('C15',
       'below exhaustion Ritz vectors orthonormal with Ritz values as Rayleigh quotients.',
       'Everything except routing and the regime predicate is numerical (level other); bounds 1e-10 resp. 1e-9 (1+|dt| ||A||).',
       category='other')
+claim('C08',
+      'TLC model checking of the TDVP programs in Sweep.tla (WellPosed at every local problem, exact time accounting, '
+      'symmetric word; negative controls) + TLC trace validation (TraceSweep.tla) of every local problem of real runs: kind, '
+      'site, bit-exact time fraction, freshness of both environment blocks, canonical forms; conservation laws as mode-N flags',
+      'The single- and two-site sweeps are programs (one micro-operation per statement group of evolution.py) executed by the '
+      'model with versioned tensors and stamped environment blocks; TLC checks that every local problem is posed in mixed '
+      'canonical form with fresh blocks, that every site receives +2 and every bond -2 half steps per step, and that '
+      'dropping an environment update or changing a fraction / sign violates this. Real runs on built-in and random complex '
+      'Hermitian MPOs (L = 1..6, several quantum-number sectors, real and complex tensors, 1..3 steps, numiter 1..25, '
+      'repeated calls) are observed local problem by local problem; the time argument of each is compared bit-exactly with '
+      '+-dt/2, +-dt and each environment block is recomputed from the tensors currently in psi, so a wrong half step or a '
+      'stale block is detected independently of how small dt is. Returned norm, H digest, bond dimensions, boundary charges '
+      'exact; norm / energy drift 1e-9.',
+      'Kernel contract of the Hermitian Krylov exponential (C15); frame inspection of the calling integrator for site '
+      'indices; mode-N bounds 1e-9.')
+claim('C09',
+      'TLC model checking of the symmetry / time accounting of the TDVP programs (Sweep.tla) + TLC trace validation of dt / -dt '
+      'pairs of real runs: the recorded word must reduce to the empty word (exact fractions); exactness on complete manifolds '
+      'and the reversibility residual as mode-N flags against scipy expm',
+      'The discrete facts behind the property - the local-problem word of a step is a palindrome, local times telescope to '
+      'one full step per site, a dt run followed by a -dt run cancels flow by flow - are model checked and validated on real '
+      'runs with exact fractions, which fails for any re-ordering / fraction / sign change even when the numerical error '
+      'would hide under a tolerance. On complete manifolds (full sector multiplicities, with and without quantum numbers, '
+      'real / imaginary / complex dt, 1..3 steps, both integrators) the result is compared with expm(-dt n H) v0/||v0||.',
+      'KNOWN FINDING (known_findings.json): in quantum-number sectors whose bonds are left-complete for one charge and '
+      'right-complete for another, TDVP is observed to be O(dt^3) accurate only; those inputs are reported as KNOWN-FINDING, '
+      'all other complete manifolds must be exact to 1e-9. The exactness clause is numerical at its core.')
+claim('C10',
+      'TLC model checking of the DMRG programs in Sweep.tla + TLC trace validation of every local minimisation of real runs '
+      '(site / pair, fresh blocks, canonical forms, Ritz value <= Rayleigh quotient, bit-identity of the reported energies '
+      'with the last local value of each sweep); variational / consistency / monotonicity clauses as mode-N flags against '
+      'dense eigvalsh in the charge sector',
+      'WellPosed + "lowest Ritz value <= Rayleigh quotient of the start tensor" make the energy sequence non-increasing '
+      'across all local steps; both are checked on every observed local problem. The reported energy of each sweep must be '
+      'bit-identical (hex) to the Ritz value of the last local problem of that sweep. Oracles named by the property: dense '
+      '<psi|H|psi> of the returned state, unit norm, eigvalsh of H restricted to the charge sector of psi, energy of the '
+      'normalized start state; complete manifold + 25 iterations + 3 sweeps => exact sector ground energy. Quantum numbers '
+      'are on in 70 % of the runs, spectra are optionally shifted positive, small bond dimensions, few Lanczos iterations, '
+      'repeated invocations.',
+      'Mode-N bounds 1e-9 ||H|| (consistency 1e-8, exactness 1e-7); frame inspection for site indices.')
 
 def main():
     props = [json.loads(l) for l in open(os.path.join(VERIF, 'properties.jsonl'))]
